@@ -68,6 +68,93 @@ VOCAB = ("decode_expression", "decode_node", "close", "read_natural", "finalize_
          "set_arrow_to_program", "from_bits", "read_bit", "read_u2", "read_u8")
 
 
+
+ITER_VERDICT = ("all", "any", "try_for_each", "try_fold", "find", "position")
+
+
+def ihr_sharing(F, rep, rd):
+    """sharing check of RedeemNode::decode: every node's IHR goes into one HashSet<Ihr>, the verdict of the insert decides
+    between Err(SharingNotMaximal) and continuing, the nodes are those of post_order_iter::<InternalSharing>, and no success
+    path avoids the check.  The check may be an explicit loop or an iterator adaptor taking a closure (`all(|d| set.insert(..))`),
+    in decode itself or in a private helper spliced into it."""
+    owners = [rd] + [F.fns[p] for p in getattr(rd, "inlined_helpers", ()) if p in F.fns]
+    closures = []
+    for o in ([rd.inlined_from] if getattr(rd, "inlined_from", None) is not None else [rd]) + owners[1:]:
+        closures += [c for c in F.closures_of(o) if not c.path.endswith("decode::{closure#0}")]
+    views = [(rd, None)] + [(c, c) for c in closures]
+    ins = [(v, cs) for v, _c in views for cs in v.calls() if cs.name == "insert" and "HashSet" in cs.callee and "Ihr" in " ".join(cs.f.get("args", []))]
+    other = [(v, cs) for v, _c in views for cs in v.calls() if cs.name == "insert" and "HashSet" in cs.callee and "Ihr" not in " ".join(cs.f.get("args", []))]
+    if len(ins) != 1:
+        if other:
+            v, cs = other[0]
+            rep.violation("C02.must", "RedeemNode::decode:ihr-key", "the sharing set is keyed on <%s>, expected the node's IHR: two unshared copies "
+                          "of a node with equal IHR must be rejected" % " ".join(cs.f.get("args", [])), cs.where())
+        else:
+            rep.violation("C02.must", "RedeemNode::decode:ihr-set", "expected one HashSet<Ihr>::insert in the sharing check, found %d" % len(ins), rd.where())
+        return
+    v, cs = ins[0]
+    Tv = Terms(v)
+    t = Tv.operand(cs.args[1])
+    names = [c[2] for c in calls_in(t)]
+    okk = True
+    if "ihr" not in names:
+        rep.violation("C02.must", "RedeemNode::decode:ihr-key", "the sharing set is keyed on %s, expected the node's IHR: two unshared copies "
+                      "of a node with equal IHR must be rejected" % show(t), cs.where())
+        okk = False
+    in_closure = v is not rd
+    gate_blocks = None
+    if not in_closure:
+        if not rd.in_loop(cs.bb):
+            rep.violation("C02.must", "RedeemNode::decode:ihr-loop", "the sharing insert is not inside the node loop", cs.where())
+            okk = False
+        if not flow.flows_to_branch(rd, cs.dest[0]):
+            rep.violation("C02.must", "RedeemNode::decode:ihr-dropped", "the verdict of HashSet::insert is dropped", cs.where())
+            okk = False
+        nx = [c for c in rd.calls() if c.name == "next" and rd.in_loop(c.bb)]
+        gate_blocks = {c.bb for c in nx}
+        its = [c for c in rd.calls() if c.name == "post_order_iter"]
+    else:
+        # the closure returns the verdict, and the adaptor it is handed to (`all`, ...) has its result decided upon
+        ret = Tv.local(0)
+        if not any(c[2] == "insert" for c in calls_in(ret)):
+            rep.violation("C02.must", "RedeemNode::decode:ihr-dropped", "the verdict of HashSet::insert is not the closure's result", cs.where())
+            okk = False
+        adaptors = []
+        Tr = Terms(rd)
+        for c in rd.calls():
+            if c.name in ITER_VERDICT and any(cl == v.path for a in c.args for cl in _closures_in(Tr.operand(a))):
+                adaptors.append(c)
+        if len(adaptors) != 1:
+            rep.violation("C02.must", "RedeemNode::decode:ihr-loop", "the closure holding the sharing insert is not handed to one iterator adaptor "
+                          "whose verdict can be decided upon (%s)" % "/".join(ITER_VERDICT), cs.where())
+            return
+        ad = adaptors[0]
+        if not flow.flows_to_branch(rd, ad.dest[0]):
+            rep.violation("C02.must", "RedeemNode::decode:ihr-dropped", "the verdict of %s(..) over the sharing check is dropped" % ad.name, ad.where())
+            okk = False
+        gate_blocks = {ad.bb}
+        recv = Tr.operand(ad.args[0])
+        its = [c for c in rd.calls() if c.name == "post_order_iter" and any(x[2] == "post_order_iter" for x in calls_in(recv))]
+    if not its or "InternalSharing" not in " ".join(its[0].f.get("args", [])):
+        rep.violation("C02.must", "RedeemNode::decode:ihr-iter", "the sharing check does not iterate post_order_iter::<InternalSharing>", rd.where())
+        okk = False
+    if not gate_blocks or flow.success_bypasses(rd, gate_blocks) is not None:
+        rep.violation("C02.must", "RedeemNode::decode:ihr-bypass", "a success path skips the sharing check", rd.where())
+        okk = False
+    # a failed insert leads to Err, not to Ok
+    if okk:
+        rep.ok("C02.must", "RedeemNode::decode: IHR sharing set", show(t))
+
+
+def _closures_in(t, out=None):
+    out = [] if out is None else out
+    if isinstance(t, tuple):
+        if t and t[0] == "closure" and len(t) > 1 and isinstance(t[1], str):
+            out.append(t[1])
+        for y in t:
+            _closures_in(y, out)
+    return out
+
 def run(ctx, rep):
     F = ctx.facts("full")
     rep.rule("C02.must", "canonicity checks lie on every success path and their verdicts are consumed")
@@ -118,37 +205,7 @@ def run(ctx, rep):
             roots = vcc.param_roots(Tr.operand(cs.args[0]), fm)
             if roots != {2}:
                 rep.violation("C02.must", "RedeemNode::decode:close-arg", "close() is applied to %s, expected the witness stream" % show(Tr.operand(cs.args[0])), cs.where())
-        # sharing loop: HashSet<Ihr>::insert(ihr(node)) verdict -> Err(SharingNotMaximal)
-        ins = [cs for cs in rd.calls() if cs.name == "insert" and "HashSet" in cs.callee]
-        if len(ins) != 1:
-            rep.violation("C02.must", "RedeemNode::decode:ihr-set", "expected one HashSet::insert in the sharing check, found %d" % len(ins), rd.where())
-        else:
-            cs = ins[0]
-            t = Tr.operand(cs.args[1])
-            names = [c[2] for c in calls_in(t)]
-            ga = " ".join(cs.f.get("args", []))
-            okk = True
-            if "ihr" not in names or "Ihr" not in ga:
-                rep.violation("C02.must", "RedeemNode::decode:ihr-key", "the sharing set is keyed on %s (<%s>), expected the node's IHR: two unshared copies "
-                              "of a node with equal IHR must be rejected" % (show(t), ga), cs.where())
-                okk = False
-            if not rd.in_loop(cs.bb):
-                rep.violation("C02.must", "RedeemNode::decode:ihr-loop", "the sharing insert is not inside the node loop", cs.where())
-                okk = False
-            if not flow.flows_to_branch(rd, cs.dest[0]):
-                rep.violation("C02.must", "RedeemNode::decode:ihr-dropped", "the verdict of HashSet::insert is dropped", cs.where())
-                okk = False
-            its = [c for c in rd.calls() if c.name == "post_order_iter"]
-            if not its or "InternalSharing" not in " ".join(its[0].f.get("args", [])):
-                rep.violation("C02.must", "RedeemNode::decode:ihr-iter", "the sharing loop does not iterate post_order_iter::<InternalSharing>", rd.where())
-                okk = False
-            # the Ok return is reached only through the loop's exit
-            nx = [c for c in rd.calls() if c.name == "next" and rd.in_loop(c.bb)]
-            if not nx or flow.success_bypasses(rd, {c.bb for c in nx}) is not None:
-                rep.violation("C02.must", "RedeemNode::decode:ihr-bypass", "a success path skips the sharing loop", rd.where())
-                okk = False
-            if okk:
-                rep.ok("C02.must", "RedeemNode::decode: IHR sharing set", show(t))
+        ihr_sharing(F, rep, rd)
         for c in F.closures_of(rd):
             if c.path.endswith("decode::{closure#0}"):
                 req_pass(rep, c, "decode_expression", flow.wrapper_pred(F, named("decode_expression")))
@@ -212,6 +269,8 @@ def run(ctx, rep):
         dn = [cs for cs in de.calls() if cs.name == "decode_node"]
         if len(dn) == 1 and "len" in [c[2] for c in calls_in(Td.operand(dn[0].args[1]))]:
             rep.ok("C02.must", "decode_expression: decode_node(bits, nodes.len())", None)
+        elif len(dn) == 1 and _counts_pushes(de, Td, dn[0]):
+            rep.ok("C02.must", "decode_expression: decode_node(bits, i) with i counting from 0 and one push per iteration", None)
         else:
             rep.violation("C02.must", "decode_expression:index", "decode_node is not given nodes.len() as the node's index", de.where())
 
@@ -330,8 +389,10 @@ def run(ctx, rep):
     rep.count("functions_reachable_from_decoders", len(reach))
     n_alloc = 0
     for p in sorted(reach):
-        f = F.fns[p]
+        f0 = F.fns[p]
+        f = F.inlined(f0, VOCAB) if f0.kind in ("Fn", "AssocFn") else f0   # sizes computed by the caller of a private helper are seen through it
         T = None
+        seen_keys = set()
         for cs in f.calls():
             if cs.name in ("with_capacity", "from_elem", "reserve", "resize", "with_capacity_in", "reserve_exact"):
                 T = T or Terms(f)
@@ -341,13 +402,17 @@ def run(ctx, rep):
                 tainted = names & {"read_natural", "bit_width", "padded_len", "compact_len"}
                 if not tainted:
                     continue
+                origin = f.blocks[cs.bb].get("origin")
+                key = "%s:%s" % (fm.short(origin or p), cs.name)
+                if origin and key in seen_keys:
+                    continue
+                seen_keys.add(key)
                 n_alloc += 1
-                key = "%s:%s" % (fm.short(p), cs.name)
                 if t[0] == "call" and t[2] == "min" and any(x[0] == "int" for x in t[3]):
                     rep.ok("C02.alloc", key, show(t))
-                elif p == DEC + "decode_expression" and _after_node_loop(f, cs):
+                elif p == DEC + "decode_expression" and not origin and _after_node_loop(f, cs):
                     rep.ok("C02.alloc", key + " (after decoding len nodes)", "capacity len is reached only after len nodes were decoded from the input, so it is bounded by the input length")
-                elif p.startswith("simplicity::value::") and cs.name == "from_elem":
+                elif (origin or p).startswith("simplicity::value::") and (cs.name == "from_elem" or tainted == {"bit_width"}):
                     # building a Value of a given type allocates its width: callers on the decode path are
                     # Value::zero (not reachable from decoders in practice) and product (inputs already exist)
                     rep.ok("C02.alloc", key + " (value construction)", "allocates the width of values that already exist: " + show(t)[:80])
@@ -400,6 +465,28 @@ def _ctor_after(fn, b):
                 names.append(s[2]["variant"])
         stack.extend(fn.succ_map()[x])
     return "/".join(sorted(set(names))[:4]) or "?"
+
+
+def _counts_pushes(de, Td, dn):
+    """the index handed to decode_node is the counter of a `0..n` loop in which every iteration that goes on pushes exactly
+    one node (the decoded one), so the counter equals nodes.len()"""
+    t = Td.operand(dn.args[1])
+    if not (isinstance(t, tuple) and t[0] == "field" and t[2] == "0" and t[1][0] == "as" and t[1][2] == "Some"):
+        return False
+    nx = t[1][1]
+    if not (nx[0] == "call" and nx[2] == "next" and nx[3] and nx[3][0][0] == "adt" and nx[3][0][1] == "std::ops::Range"):
+        return False
+    rng = dict(zip(nx[3][0][3], nx[3][0][4]))
+    if rng.get("start") != ("int", 0, "usize"):
+        return False
+    pushes = [c for c in de.calls() if c.name == "push" and c.bb in de.reachable(dn.bb) and dn.bb in de.reachable(c.bb)]
+    if len(pushes) != 1 or not any(c[2] == "decode_node" for c in calls_in(Td.operand(pushes[0].args[1]))):
+        return False
+    avoid = {pushes[0].bb} | flow.error_blocks(de)
+    for s_ in de.succs(dn.bb):
+        if s_ not in avoid and dn.bb in de.reachable(s_, avoid=avoid):
+            return False
+    return True
 
 
 def _after_node_loop(f, cs):
